@@ -39,9 +39,17 @@ class UserFault(Exception):
 
 def _fault(site):
     HITS.append(site)
-    if FAULT[0] == site:
+    want = FAULT[0]
+    if want is not None and "@" in want:  # "site@k": the k-th occurrence of the site
+        base, k = want.split("@")
+        hit = base == site and HITS.count(site) == int(k)
+    else:
+        hit = want == site
+    if hit:
         FAULT[0] = None  # first occurrence only
         kind = FAULT[1]
+        if kind == "false":
+            return False  # a guard / requirement / condition that does not hold (no exception inside it)
         if kind == "user":
             raise UserFault(site)
         if kind == "reject-sim":
@@ -98,6 +106,8 @@ scenario Sub():
         _symx_fault('sub-setup')
         override ego with foo 10
         terminate after 2 steps
+        record _symx_log('sub-record') as subrec
+        require always _symx_fault('sub-requirement')
     compose:
         _symx_fault('sub-compose')
         override ego with bar 20
@@ -116,16 +126,18 @@ scenario Main():
         require always _symx_fault('requirement')
     compose:
         _symx_fault('compose')
+        wait                          # (a sub-scenario left over from an earlier simulation would be visible here)
         do Sub()
         _symx_fault('compose-after-sub')
         while True:
             wait
 """
 
-SITES = ["guard-pre", "guard-inv", "behavior-start", "behavior", "interrupt-cond", "monitor", "sub-setup", "sub-compose",
+SITES = ["guard-pre", "guard-inv", "behavior-start", "behavior", "interrupt-cond", "monitor", "sub-setup", "sub-requirement", "sub-compose",
          "sub-compose-after-override", "record", "terminate-when", "requirement", "compose", "compose-after-sub",
-         "action", "sim-create", "sim-exec", "sim-step", "sim-read"]
-KINDS = ["user", "reject-sim", "rejection"]
+         "action", "sim-create", "sim-exec", "sim-step", "sim-read",
+         "sub-requirement@2", "requirement@2", "guard-inv@2", "monitor@2", "record@2", "terminate-when@2"]
+KINDS = ["user", "reject-sim", "rejection", "false"]
 
 _SIM = []
 
@@ -212,12 +224,12 @@ def setup_fault():
     D.reset(C(), {})
     FAULT[0] = None
     del HITS[:]
-    fault_simulator().simulate(scene, maxSteps=3, maxIterations=1, verbosity=0)
+    fault_simulator().simulate(scene, maxSteps=4, maxIterations=1, verbosity=0)
     _STATE["baseline_log"] = list(D.LOG)
     for _ in range(2):
         D.reset(C(), {})
         del HITS[:]
-        fault_simulator().simulate(scene, maxSteps=3, maxIterations=1, verbosity=0)
+        fault_simulator().simulate(scene, maxSteps=4, maxIterations=1, verbosity=0)
     if list(D.LOG) != _STATE["baseline_log"]:
         _STATE["baseline_drift"] = True
     _STATE["baseline_hits"] = list(HITS)
@@ -234,7 +246,7 @@ def h_fault(ctx):
     FAULT[0], FAULT[1] = site, kind
     outcome = None
     try:
-        sim = fault_simulator().simulate(scene, maxSteps=3, maxIterations=1, verbosity=0)
+        sim = fault_simulator().simulate(scene, maxSteps=4, maxIterations=1, verbosity=0)
         outcome = "completed" if sim is not None else "rejected"
     except UserFault:
         outcome = "user-exception"
@@ -245,6 +257,10 @@ def h_fault(ctx):
     ctx.check("fault-site-was-reached", fired, site=site)
     if kind == "user":
         ctx.check("user-exception-propagates", outcome == "user-exception", outcome=outcome, site=site)
+    elif kind == "false":
+        # a false value is a violation only at guards / requirements; elsewhere it is an ordinary value
+        ctx.check("a-false-guard-or-condition-never-raises-anything-but-a-rejection", outcome in ("completed", "rejected")
+                  or outcome.startswith("other:Rejec") or outcome == "other:GuardViolation", outcome=outcome, site=site)
     else:
         ctx.check("rejection-yields-no-simulation-or-a-rejection-error", outcome in ("rejected",) or outcome.startswith("other:Rejec")
                   or outcome == "other:GuardViolation", outcome=outcome, site=site, kind=kind)
@@ -260,7 +276,7 @@ def h_fault(ctx):
         del HITS[:]
         try:
             sc2 = scene if which == "same-scene" else _STATE["scenario"].generate(maxIterations=1, verbosity=0)[0]
-            sim2 = fault_simulator().simulate(sc2, maxSteps=3, maxIterations=1, verbosity=0)
+            sim2 = fault_simulator().simulate(sc2, maxSteps=4, maxIterations=1, verbosity=0)
             out2 = "completed" if sim2 is not None else "rejected"
         except Exception as e:
             out2 = "error:" + type(e).__name__
